@@ -3590,7 +3590,14 @@ func callbacksIn(p *Prog, info *types.Info, root ast.Node) []callbackBody {
 	callee := map[ast.Expr]bool{}
 	ast.Inspect(root, func(n ast.Node) bool {
 		if c, ok := n.(*ast.CallExpr); ok {
-			callee[ast.Unparen(c.Fun)] = true
+			fun := ast.Unparen(c.Fun)
+			callee[fun] = true
+			switch ix := fun.(type) {
+			case *ast.IndexExpr:
+				callee[ast.Unparen(ix.X)] = true
+			case *ast.IndexListExpr:
+				callee[ast.Unparen(ix.X)] = true
+			}
 		}
 		return true
 	})
@@ -3608,6 +3615,17 @@ func callbacksIn(p *Prog, info *types.Info, root ast.Node) []callbackBody {
 					}
 				}
 			}
+		case *ast.Ident:
+			// a package-level function of the analysed package used as a value
+			if callee[x] {
+				return true
+			}
+			if fn, isFn := info.Uses[x].(*types.Func); isFn {
+				if fd := p.decls().byFunc[fn.Origin()]; fd != nil && fd.Body != nil && fd.Recv == nil && p.decls().infoOf[fd] == info {
+					out = append(out, callbackBody{Node: x, Type: fd.Type, Body: fd.Body, Decl: fd})
+				}
+			}
+			return true
 		case *ast.SelectorExpr:
 			if callee[x] {
 				return true
